@@ -8,6 +8,6 @@ ASSUMPTIONS = conn.COMMON_ASSUMPTIONS
 
 
 def targets(eng):
-    return conn.targets_for(eng, ["lemma:step", "_cleanup", "report_fatal_error", "_handle_disconnect_request_internal", "force_disconnect",
+    return conn.targets_for(eng, ["__init__", "lemma:step", "_cleanup", "report_fatal_error", "_handle_disconnect_request_internal", "force_disconnect",
                                   "disconnect", "_async_pong_not_received", "send_messages", "_set_connection_state", "finish_connection",
                                   "start_connection", "process_packet", "_async_send_keep_alive"], ["C07"])
